@@ -219,6 +219,21 @@ def deep_corner_mesh(nlev=7):
 DEEP_FIELDS = ["f%d" % i for i in range(12)]
 
 
+def many_box_mesh():
+    """27 boxes on level 0 and 20 on level 1 (2^3 cells each): more boxes than the small-array shortcuts of sorting
+    routines (16), not a multiple of 8, two-digit box counts in the headers"""
+    l0 = [[[2 * i, 2 * j, 2 * k], [2 * i + 1, 2 * j + 1, 2 * k + 1]] for k in range(3) for j in range(3) for i in range(3)]
+    l1 = [[[2 * i, 2 * j, 0], [2 * i + 1, 2 * j + 1, 1]] for j in range(4) for i in range(5)]
+    return {"ndims": 3, "domain": [6, 6, 6], "levels": [l0, l1]}
+
+
+def scattered_layout(nboxes, nfiles=5):
+    """box b lives in file (7 b) mod nfiles; odd files hold their boxes in descending order; file numbers reversed"""
+    files = [[b for b in range(nboxes) if (7 * b) % nfiles == f] for f in range(nfiles)]
+    files = [sorted(f, reverse=bool(i % 2)) for i, f in enumerate(files) if f]
+    return {"files": files, "nums": list(reversed(range(len(files))))}
+
+
 # a few fixed meshes used as irrelevant context (rotated by VERIF_SEED)
 def named_meshes(ndims):
     if ndims == 2:
